@@ -248,13 +248,13 @@ pub proof fn canary_u_reindex()
                  rewrites=[('R-forname', r'for \(gaphandle, gapdelta\) in gaps\.iter\(\) \{', 'let mut vx_done = false; for vx_g in vx_it: gaps.iter() { let (gaphandle, gapdelta) = (&vx_g.0, &vx_g.1); if !vx_done {'),
                            ('R-continue', r'break;', 'vx_done = true; proof { vx_k = vx_it.index@ as int; }'),
                            ('R-continue', r'(?s)(vx_k = vx_it\.index@ as int; \}\s*\}\s*)\}', r'\1} }'),
-                           ('R-deref', r'delta \+= gapdelta;', 'delta += *gapdelta;')],
+                           ('R-deref', r'delta (\+?=) \*?gapdelta;', r'delta \1 *gapdelta;')],
                  requires=[('gaps_wf', f'gaps_wf({GV})'),
                            ('in_range', f'self.idx() as int + shift({GV}, self.idx() as int) >= 0')],
                  ensures=[('shifted', f'r.idx() as int == self.idx() as int + shift({GV}, self.idx() as int)')],
                  prologue='proof { Self::hmax_bound(); } let ghost mut vx_k: int = 0;',
                  before=[(r're:Self::new\(\(self\.as_usize\(\) as isize', REINDEX_END, None, 'shifted'),
-                         ('delta += *gapdelta;', 'proof { let g = ' + GV + '; let i = vx_it.index@ as int; lemma_shift_take(g, i, self.idx() as int); assert(g[i].1 == *gapdelta as int); assert(total(g.take(i)) >= -0x1_0000_0000 && total(g.take(i + 1)) >= -0x1_0000_0000); }')],
+                         (r're:delta \+?= \*gapdelta;', 'proof { let g = ' + GV + '; let i = vx_it.index@ as int; lemma_shift_take(g, i, self.idx() as int); assert(g[i].1 == *gapdelta as int); assert(total(g.take(i)) >= -0x1_0000_0000 && total(g.take(i + 1)) >= -0x1_0000_0000); }')],
                  loops={0: dict(invariant=[
                      ('wf', f'gaps_wf({GV})'),
                      ('nonpositive', 'delta <= 0'),
